@@ -3,13 +3,13 @@ CONSTANTS
     Quorum = 2
     MaxEpoch = 5
     MaxImm = 4
-    LabelChecked = FALSE
+    LabelChecked = TRUE
     AtomicSeal = FALSE
     RegSets = {{p1, p2, p3}, {p1, p2}, {p3}}
     MaxCerts = 8
     MaxDepthHist = 0
     ExcuseDoubleCert = TRUE
-    ExcuseRelabel = TRUE
+    ExcuseRelabel = FALSE
     GenDepth = 70
 SPECIFICATION SpecH
 CONSTRAINT Bound
